@@ -288,7 +288,20 @@ impl Register {
         let ident = &self.ident;
         let access_right = &self.reg_attr.access;
 
+        // A numerical register is read and written as a whole value of its type.
+        let len_check = match ty {
+            RegisterType::Str | RegisterType::Bytes => quote! {},
+            _ => quote! {
+                const _: () = assert!(
+                    #len == std::mem::size_of::<#ty>(),
+                    "register length must be equal to the size of the register type"
+                );
+            },
+        };
+
         quote! {
+            #len_check
+
             impl #ident {
                 #helper_methods
             }
